@@ -35,13 +35,20 @@ RULE = ("random interleavings (10-32 ops) of read / modify (append a log entry, 
         "(k = 0: writer entirely before, k = #statements: entirely after the read; the count is measured, so an added statement is "
         "covered) x writer B kind (context key via auto-commit, status via transaction, task status via transaction) x A's write "
         "(auto-commit | transaction, without | with expected_phase = the status A read) x #tasks, plus random schedules with two "
-        "writers parked in two gaps, retries and status / task modifications by A; non-trivial when B commits strictly inside A's read")
+        "writers parked in two gaps, retries and status / task modifications by A; non-trivial when B commits strictly inside A's read; "
+        "torn writes: clients 0 and 1 read the same version and set different context keys, client 0's store_stage (transaction | auto-commit, "
+        "without | with expected_phase) is parked before EVERY statement of that call at which its connection holds no write lock (before the "
+        "SELECT at its head, and between that SELECT and the UPDATE) while client 1's complete write commits, or client 1 writes after the call, "
+        "on a stage with 0, 1 and 2 task rows (0 = only the stage-row version check guards the write)")
 ASSUMPTIONS = [
     "interleaving granularity is the store API call: SQLite admits one writer at a time, so statements of two store_stage "
     "calls cannot interleave between the first UPDATE and the commit (trusted: SQLite locking)",
     "in the random Mode-A suite (cas-mode-a) a read is one atomic call; the torn-read suite splits every read API at every "
     "SQL statement boundary with a complete committed write of another connection in between (statement = one "
     "sqlite3.Connection.execute call; a writer cannot commit INSIDE one SELECT: SQLite statement isolation, trusted)",
+    "torn-write suite: a writer is parked only where its connection is not in a transaction (Python's sqlite3 opens the transaction at the "
+    "first INSERT/UPDATE/DELETE); at the statements after its first DML a second writer would block on SQLite's lock until the first commits "
+    "(equivalent to running after it), those points are counted and not run",
     "torn-read suite: which statement supplies the stage row / the task rows of the returned object is recognised as the first "
     "full-row SELECT on stage_executions / task_executions whose result contains the target (per API: the n-th such statement); "
     "a wrong recognition shows up as a correspondence failure because the object handed out is part of the compared output",
@@ -88,6 +95,7 @@ class Bed:
         self.committed: list[tuple] = []          # modifications of the writes that reported success, commit order
         self.based_on: list[tuple[int, int]] = []  # (client, version the successful write was based on)
         self.lost_reported = False
+        self.rebase = None          # durable rows right after another client's writes that ran INSIDE this client's write call (torn-write suite)
         self._build()
         self.admin = sqlite3.connect(self.path, timeout=30, isolation_level=None, check_same_thread=False)
 
@@ -199,6 +207,8 @@ class Bed:
             if self.clients[c].call(fix):
                 self.tags.append("open-write-txn-after-ConcurrencyError")
             after = self.db()
+            if self.rebase is not None:
+                before = self.rebase
             if after != before:
                 out = "conflict-partial"
         if out == "ok":
@@ -535,6 +545,8 @@ class TornBed(Bed):
         self.torn: dict[int, bool] = {}
         self.keep = None
         self.nstmts = 0
+        self.rebase_full = None
+        self.sig_prefix = "torn-read:lost-update"
         self.was_torn = False
         self.obj_desc = ""
 
@@ -606,6 +618,8 @@ class TornBed(Bed):
             self.lost_reported = saved
         out = self.outs[-1].split("#")[0]
         after = self.full()
+        if self.rebase_full is not None:
+            before, self.rebase_full = self.rebase_full, None      # another client committed inside this write call: that is the state to preserve
         if out != "ok":
             self.check_fold(op)
             return
@@ -627,7 +641,7 @@ class TornBed(Bed):
                      + (" with an object that mixes two states of the row (torn read: " + self.obj_desc + ")" if torn else "")
                      + (f" and silently reverted committed changes it never touched: {', '.join(lost)}" if lost else "")
                      + f"; row before the write {_short(before)}, after {_short(after)}",
-                     f"torn-read:lost-update:{self.api}:{self.bkind}")
+                     f"{self.sig_prefix}:{self.api}:{self.bkind}")
         else:
             self.check_fold(op)
 
@@ -821,6 +835,154 @@ def _torn_suite(ctx, pool: Pool) -> None:
     ctx.correspond("torn-read", inputs, lines, impl)
 
 
+# ------------------------------------------------------------------------------------------------
+# torn writes: a store_stage call is several SQL statements too (existence / version SELECT, UPDATE, task upserts, COMMIT)
+# ------------------------------------------------------------------------------------------------
+
+class _GatedClient:
+    """stands in for a Worker inside ONE Bed: its first call runs under the statement gate (start_call / park / resume), later calls are plain"""
+
+    def __init__(self, w: Worker, on_park) -> None:
+        self.w, self.on_park, self.armed = w, on_park, False
+
+    def call(self, fn, timeout: float = 120.0):
+        if not self.armed:
+            return self.w.call(fn, timeout)
+        self.armed = False
+        self.w.start_call(fn)
+        while True:
+            kind, val = self.w.wait_parked_or_done(timeout)      # raises what the call raised (ConcurrencyError)
+            if kind == "done":
+                return val
+            self.on_park(val)
+            self.w.resume()
+
+    def __getattr__(self, n):
+        return getattr(self.w, n)
+
+
+def run_torn_write(pool: Pool, sc: dict, trace: list[str] | None = None) -> TornBed:
+    """sc = {status, ntasks, path: t|p, phase: -|@, k, b: [ops of client 1]}: clients 0 and 1 read the SAME version and modify different
+    context keys; client 0's store_stage (transaction | auto-commit) is parked before its statement k — only where its connection holds no
+    write lock, i.e. before the SELECT at its head and between that SELECT and the UPDATE (Python's sqlite3 BEGINs at the first DML) — while
+    client 1 performs its complete committed write; k >= #statements: client 1 writes after client 0's call returned."""
+    bed = TornBed(sc["status"], sc["ntasks"], pool.base, pool.clients)
+    bed.api = "store_stage." + ("transaction" if sc["path"] == "t" else "auto-commit")
+    bed.bkind = f"tasks{sc['ntasks']}"
+    bed.sig_prefix = "torn-write:lost-update"
+    a = pool.clients[0]
+    seen = {"n": 0, "parked": False, "skipped": False}
+    store = bed.store
+
+    def say(x: str) -> None:
+        if trace is not None:
+            trace.append(x)
+
+    def gate(sql, params):
+        i = seen["n"]
+        seen["n"] += 1
+        intxn = bool(store._get_connection().in_transaction)
+        say(f"  A stmt {i:2d} {'*' if intxn else ' '} " + " ".join(sql.split())[:110])
+        bed.stmts.append(f"{i}:{'*' if intxn else ''}" + " ".join(sql.split())[:60])
+        if i == sc["k"]:
+            if intxn:
+                seen["skipped"] = True       # A holds SQLite's write lock: B's write would simply block until A commits
+            else:
+                seen["parked"] = True
+                a.park_here({"k": i})
+
+    def on_park(info) -> None:
+        say(f"  A parked before stmt {info['k']} of its store_stage")
+        for op in sc["b"]:
+            bed.step(op)
+            say(f"    {op:24s} -> {bed.outs[-1]}")
+        bed.rebase, bed.rebase_full = bed.db(), bed.full()
+
+    proxy = _GatedClient(a, on_park)
+    bed.clients = [proxy] + list(pool.clients[1:])
+    try:
+        for op in ("read:0", "read:1", "mod:0:-:8:-:0", "mod:1:-:7:-:0"):
+            bed.step(op)
+        names = [x.name for x in bed.STAT]
+        ph = "-" if sc["phase"] == "-" else str(names.index(bed.obj[0].status.name))
+        wop = f"write:0:{sc['path']}:{ph}"
+        CTL.gates[a.ident] = gate
+        proxy.armed = True
+        nh = len(bed.hits)
+        try:
+            bed.step(wop)
+        finally:
+            CTL.gates.pop(a.ident, None)
+            proxy.armed = False
+        bed.nstmts = seen["n"]
+        say(f"  {wop:26s} -> {bed.outs[-1]}")
+        for what, sig in bed.hits[nh:]:
+            say(f"PROPERTY FAILS at step `{wop}`: {what}  [{sig}]")
+        bed.rebase = None
+        bed.was_torn = seen["parked"]
+        bed.skipped = seen["skipped"]
+        if not seen["parked"]:
+            for op in sc["b"]:
+                nh = len(bed.hits)
+                bed.step(op)
+                say(f"  {op:26s} -> {bed.outs[-1]}")
+                for what, sig in bed.hits[nh:]:
+                    say(f"PROPERTY FAILS at step `{op}`: {what}  [{sig}]")
+    finally:
+        CTL.gates.pop(a.ident, None)
+        if a.busy:
+            a.resume(abort=True)
+            try:
+                a.wait_parked_or_done(10)
+            except BaseException:  # noqa: BLE001
+                pass
+        bed.clients = list(pool.clients)
+        bed.close()
+    return bed
+
+
+def torn_write_scenarios(pool: Pool, thorough: bool) -> list[dict]:
+    out = []
+    for nt in (0, 1, 2):
+        for path in ("t", "p"):
+            for phase in ("-", "@"):
+                for bpath in (("t", "p") if thorough else ("t",)):
+                    base = {"status": 1, "ntasks": nt, "path": path, "phase": phase, "b": [f"write:1:{bpath}:-"]}
+                    n = run_torn_write(pool, {**base, "k": 10 ** 6}).nstmts
+                    for k in range(n + 1):
+                        out.append({**base, "k": k})
+    return out
+
+
+def _torn_write_suite(ctx, pool: Pool) -> None:
+    inputs, lines, impl = [], [], []
+    n_inside = 0
+    for sc in torn_write_scenarios(pool, ctx.thorough):
+        bed = run_torn_write(pool, sc)
+        if bed.skipped:
+            ctx.tag("torn-write:point-inside-write-transaction(not-run)")
+            continue
+        ctx.count(["tornwrite", sc], nontrivial=True)
+        ctx.tag("torn-write:" + ("B-inside-A's-store_stage" if bed.was_torn else "B-after-A"), f"torn-write:path={sc['path']}", f"torn-write:tasks={sc['ntasks']}")
+        for o in bed.outs[-2:]:
+            ctx.tag("torn-write:out:" + o.split("#")[0])
+        n_inside += bed.was_torn
+        inputs.append({"tornwrite": sc})
+        lines.append(f"cas {bed.status0} {bed.ntasks} " + ";".join(bed.ops))
+        impl.append("|".join(bed.outs))
+        if bed.was_torn and len([x for x in ctx.samples if "tornwrite" in x]) < 1:
+            ctx.sample({"suite": "torn-write", "tornwrite": sc, "statements": bed.stmts, "ops": bed.ops, "outs": bed.outs})
+        seen = set()
+        for what, sig in bed.hits:
+            if sig not in seen:
+                seen.add(sig)
+                ctx.violation(what + f"; schedule: clients 0 and 1 read the same version, client 1's complete write ran before statement {sc['k']} of "
+                              f"client 0's store_stage {bed.stmts}", sig, {"tornwrite": sc})
+    ctx.extra["torn_write_schedules"] = len(lines)
+    ctx.extra["torn_write_inside"] = n_inside
+    ctx.correspond("torn-write", inputs, lines, impl)
+
+
 def _run_replays(ctx, pool: Pool) -> None:
     d = core.VERIF / "replays" / "C07"
     if not d.is_dir():
@@ -829,6 +991,19 @@ def _run_replays(ctx, pool: Pool) -> None:
     for f in sorted(d.glob("*.json")):
         body = json.loads(f.read_text())
         r = body.get("replay", body)
+        if "tornwrite" in r:
+            tb = run_torn_write(pool, r["tornwrite"])
+            ctx.count(["tornwrite", r["tornwrite"]])
+            ctx.tag("replay-file")
+            inputs.append({"file": f.name})
+            lines.append(f"cas {tb.status0} {tb.ntasks} " + ";".join(tb.ops))
+            impl.append("|".join(tb.outs))
+            seen = set()
+            for what, sig in tb.hits:
+                if sig not in seen:
+                    seen.add(sig)
+                    ctx.violation(what, sig, {"tornwrite": r["tornwrite"]})
+            continue
         if "torn" in r:
             tb = run_torn(pool, r["torn"])
             ctx.count(["torn", r["torn"]])
@@ -874,6 +1049,7 @@ def run(ctx) -> None:
     try:
         _run_replays(ctx, pool)
         _torn_suite(ctx, pool)
+        _torn_write_suite(ctx, pool)
         _upsert_suite(ctx, pool, ctx.n(500, 5000))
         _suite(ctx, pool, ctx.n(3000, 16000), "cas-mode-a")
     except BaseException:
@@ -911,6 +1087,23 @@ def replay(ctx, body) -> int:
     pool = Pool()
     try:
         r = body.get("replay", body)
+        if "tornwrite" in r:
+            sc = r["tornwrite"]
+            print(f"torn write: clients 0 and 1 read version 0 of a stage with {sc['ntasks']} task row(s) and set different context keys; client 0 calls "
+                  f"store_stage ({'transaction' if sc['path'] == 't' else 'auto-commit'}, expected_phase {'= its status' if sc['phase'] == '@' else 'none'}) "
+                  f"and is parked before its statement {sc['k']} while client 1 does {sc['b']}")
+            trace: list[str] = []
+            tb = run_torn_write(pool, sc, trace)
+            for ln in trace:
+                print(ln)
+            if tb.skipped:
+                print("  statement", sc["k"], "is inside client 0's write transaction: not a legal injection point (client 1 would block), nothing was injected")
+            model = ctx.lean([f"cas {tb.status0} {tb.ntasks} " + ";".join(tb.ops)])
+            if model is not None:
+                print("model agrees with the implementation on this schedule:", model[0] == "|".join(tb.outs))
+                if model[0] != "|".join(tb.outs):
+                    print("  model:", model[0]); print("  impl :", "|".join(tb.outs))
+            return 1 if tb.hits else 0
         if "torn" in r:
             sc = r["torn"]
             print(f"torn read: client 0 calls {sc['api']} on a stage with {sc['ntasks']} task(s), initial status {sc['status']}; "
